@@ -374,6 +374,11 @@ def replay_tier(run: Run, check_fn):
                 run.stats.notes.append("open finding %s no longer reproduces on this tree" % ent["id"])
         else:
             if fail is not None:
+                if fail.finding and fail.finding != ent["id"] and fail.finding in run.known_open:
+                    # the input of a repaired finding now shows a *different*, still open one (narrow predicate of that one)
+                    run.stats.hist["attributed:" + fail.finding] += 1
+                    run.report_known(fail.finding)
+                    continue
                 fail.finding = None
                 fail.bucket = "recurrence:" + ent["id"]
                 fail.detail = "fixed finding %s is back: %s" % (ent["id"], fail.detail)
